@@ -36,7 +36,7 @@ def standalone(inner, items):
     return _cache[k]
 
 
-def cases(tier, rng):
+def _cases(tier, rng):
     yield {'kind': 'mux', 'term': [['split', ['floordiv', 2], [['tee', 'combine_latest', [[['first']], [['identity']], [['count', False]]]]]]],
            'items': [0, 1, 2, 3, 4, 5]}
     yield {'kind': 'mux', 'term': [['roll', 2, 2, [['tee', 'zip', [[['filter', ['is_even']]], [['identity']]]]]]], 'items': [1, 1, 2, 3, 5, 5, 6, 7]}
@@ -63,7 +63,7 @@ def cases(tier, rng):
         yield {'kind': 'mux', 'term': term, 'items': muxgen.gen_items(rng, n=rng.choice([2, 5, 8, 13, 21]), kind='mono' if mono else 'int')}
 
 
-def oracle(case, r):
+def _oracle(case, r):
     if 'harness_exc' in r:
         return 'real code raised: ' + r['harness_exc']
     if r.get('raised') or muxprop.has_fatal(r['chunks']):
@@ -118,3 +118,14 @@ def violation_class(case, text):
     if 'tee' in text:
         return 'tee'
     return 'lifetime'
+
+
+def cases(tier, rng):
+    """every case of `_cases`, and for a fraction of the mux/plain ones the same case run as the SECOND subscription of
+    its pipeline object (after an earlier subscription that completed, failed or was disposed)"""
+    pr = rng.sub('resubscription')
+    return muxprop.with_preludes(_cases(tier, rng), pr)
+
+
+def oracle(case, r):
+    return muxprop.prelude_violation(case, r) or _oracle(case, r)
